@@ -77,6 +77,8 @@ def main():
             results[c] = {"exit": rc, "violation_line": v.group(0) if v else None,
                           "found_failing_input": bool(v) and "no-failing-input-found" not in v.group(0),
                           "what": (w.group(1)[:300] if w else None), "wall_s": round(time.time() - t0)}
+        # the tables regenerated from the seeded tree do not stay behind for the next seed
+        sh(["git", "-C", verif, "checkout", "--", "lean/ChfVerif/Gen", "evidence"])
         meta = json.load(open(mp))
         meta["checks_run_against_it"] = results
         meta["detected"] = any(x["exit"] == 1 for x in results.values())
